@@ -448,4 +448,43 @@ def rule_graph_diagonals(P):
     return R
 
 
-RULES = [rule_counter_width, rule_mirror_simplify, rule_swap_loops, rule_image_fire, rule_small_hole_threshold, rule_graph_diagonals]
+def rule_large_hole_threshold(P):
+    """the grid managers call a hole 'large' (kept on a plain list, served without a size check) exactly when its size exceeds the largest request seen:
+    size > max_request.  Every place that compares a hole size with max_request must draw the line at the same size, i.e. be `size > max_request`
+    or its negation `size <= max_request`; a `<` or `>=` files the hole of exactly max_request slots on the wrong side (seed C18a)"""
+    R = RuleResult("sibling.large-hole-threshold", "in every memory manager, each comparison of getHoleSize(·) with max_request is `>` or `<=` (hole size on the left): one threshold, one side for the hole of exactly max_request slots")
+    n = 0
+    seen = set()
+    for f in sorted(P.fns.values(), key=lambda f: (f["file"], f["line"], f["inst"])):
+        if not f.get("cfg") or not f["file"].startswith("memory_managers/") or (f["file"], f["line"]) in seen:
+            continue
+        seen.add((f["file"], f["line"]))
+        texts = []
+        for b in f["cfg"]["blocks"]:
+            if b.get("cond") and b.get("tline"):
+                texts.append((b["cond"]["text"], b["tline"]))
+            for e in b["ev"]:
+                if e["k"] == "ret" and e.get("text"):
+                    texts.append((e["text"], e["line"]))
+                elif e["k"] == "ldef" and e.get("rhs"):
+                    texts.append((e["rhs"], e["line"]))
+        for t, line in texts:
+            t0 = re.sub(r"\s+", "", t).replace("this->", "")
+            for m in re.finditer(r"(?:size_t\()?getHoleSize\([^()]*\)\)?(<=|>=|<|>|==|!=)max_request|max_request(<=|>=|<|>|==|!=)(?:size_t\()?getHoleSize\([^()]*\)\)?", t0):
+                op = m.group(1) or {"<": ">", ">": "<", "<=": ">=", ">=": "<=", "==": "==", "!=": "!="}[m.group(2)]
+                n += 1
+                R.functions.add(f["inst"])
+                R.paths += 1
+                iid = "%s: hole size %s max_request" % (base_name(f["q"]).replace(M, "")[:60], op)
+                if op in (">", "<="):
+                    R.ok(iid, where(f, line))
+                else:
+                    R.fail(iid, where(f, line), Finding(R.rule, f["file"], base_name(f["q"]), "size%smax_request" % op,
+                           "a hole is classified by `size %s max_request` here while the manager's predicate is `size > max_request`: the hole of exactly max_request slots lands on the other side — it stays on (or leaves) the large list while the bookkeeping that removes it treats it as a grid hole" % op, line))
+    if n < 3:
+        raise AnalysisBroken("sibling.large-hole-threshold: expected ≥3 comparisons of a hole size with max_request, found %d" % n)
+    R.require_floor(3, "large-hole threshold comparisons")
+    return R
+
+
+RULES = [rule_counter_width, rule_mirror_simplify, rule_swap_loops, rule_image_fire, rule_small_hole_threshold, rule_graph_diagonals, rule_large_hole_threshold]
